@@ -94,6 +94,11 @@ func (e *Exec) invoke(fr *Frame, st State, cc *ssa.CallCommon, recv Val, args []
 	tag, word := e.peelIte(st, recv[0]), e.peelIte(st, recv[1])
 	iface := cc.Value.Type().Underlying().(*types.Interface)
 	name := cc.Method.Name()
+	if nt, ok := cc.Value.Type().(*types.Named); ok && nt.Obj().Name() == "Socket" && nt.Obj().Pkg() != nil && strings.HasSuffix(nt.Obj().Pkg().Path(), "/knxnet") && e.rootFn != nil && e.rootFn.Pkg != nil && e.rootFn.Pkg.Pkg.Name() == "knx" {
+		// clients of the socket (package knx) see it as environment
+		st = e.oblige(st, fr.fn, "nopanic.nil", "", pos, c.Ne(tag, c.Const(64, 0)))
+		return e.socketInvoke(fr, st, cc, Val{tag, word}, args, pos)
+	}
 	var cands []types.Type
 	if tag.IsConst() {
 		if tag.C == 0 {
